@@ -49,6 +49,22 @@ fn gen_small_session(r: &mut Rng) -> Vec<AResponse> {
             }
         }
         resp.frames.truncate(4);
+        if let Some(p) = resp.partial.as_mut() {
+            p.fields.truncate(3);
+            for (_, v) in p.fields.iter_mut() {
+                if v.len() > 40 {
+                    let mut cut = 40;
+                    while !v.is_char_boundary(cut) {
+                        cut -= 1;
+                    }
+                    v.truncate(cut);
+                }
+            }
+            if let Some((pos, b)) = p.binary.as_mut() {
+                b.truncate(60);
+                *pos = (*pos).min(p.fields.len());
+            }
+        }
         if let Some(e) = resp.error.as_mut() {
             if resp.form == crate::refmodel::wire::Form::List {
                 e.index = resp.frames.len() as u64;
@@ -88,7 +104,7 @@ impl Property for C10 {
         "C10"
     }
     fn cases(&self, cfg: &Cfg) -> u64 {
-        cfg.tier.pick(300, 5_000) + GREETINGS.len() as u64
+        cfg.tier.pick(500, 5_000) + GREETINGS.len() as u64
     }
     fn run_case(&self, cfg: &Cfg, i: u64, acc: &mut Acc) {
         let ng = GREETINGS.len() as u64;
